@@ -297,6 +297,53 @@ def digraph_flower(rng, max_routes=3, wmax=5, max_rep=2, float_w=False, zero_pet
             "zero_flow_edges": [list(e) for e in order if flow[e] == 0]}
 
 
+def digraph_laps(rng, float_w=False):
+    """One hub with 1-2 petals; entry and exit edges are meant to be *ignored* by the caller (returned under
+    "entry_exit"), so every element that has to be explained lies on a cycle and is traversed laps >= 2 times by
+    each generating walk.  Then nothing of multiplicity 1 ties a walk's weight to a flow value: weight and
+    multiplicity are only tied through their product."""
+    pool = names(rng, 8)
+    s, h, t = pool.pop(), pool.pop(), pool.pop()
+    order = [(s, h), (h, t)]
+    petals = []
+    for _ in range(rng.choice([1, 1, 2])):
+        kind = rng.choice(["loop", "two", "two", "three"])
+        if kind == "loop" and (h, h) not in order:
+            order.append((h, h)); petals.append([h, h])
+        elif kind == "two":
+            x = pool.pop()
+            order += [(h, x), (x, h)]; petals.append([h, x, h])
+        elif kind == "three":
+            x, y = pool.pop(), pool.pop()
+            order += [(h, x), (x, y), (y, h)]; petals.append([h, x, y, h])
+    if not petals:
+        order.append((h, h)); petals.append([h, h])
+    routes, weights = [], []
+    for _ in range(rng.choice([1, 1, 2])):
+        laps = rng.choice([2, 2, 3, 4])
+        r = [s, h]
+        for pt in petals:
+            for _ in range(laps):
+                r += pt[1:]
+        r.append(t)
+        routes.append(r)
+        weights.append(_w(rng, 3, float_w))
+    flow = _flow_from_routes(routes, weights)
+    # the ignored entry / exit edges may carry anything
+    if rng.random() < 0.5:
+        flow[(s, h)] = rng.randint(0, 9)
+    if rng.random() < 0.5:
+        flow[(h, t)] = rng.randint(0, 9)
+    rng.shuffle(order)
+    nodes = []
+    for a, b in order:
+        for x in (a, b):
+            if x not in nodes:
+                nodes.append(x)
+    return {"kind": "digraph", "nodes": nodes, "edges": _edges_json(flow, order), "routes": routes, "weights": weights,
+            "zero_flow_edges": [], "entry_exit": [[s, h], [h, t]], "back_edges": [list(pt[-2:]) for pt in petals]}
+
+
 def digraph_cyclic(rng, max_nodes=5, max_edges=6, max_routes=3, wmax=5, max_rep=2, float_w=False, flower_p=0.3, zero_petal_p=0.2):
     """Digraph with cycles; flow = superposition of source-to-sink walks that wind cycles."""
     if rng.random() < flower_p:
